@@ -904,6 +904,10 @@ class Fxp():
             # extract real and imaginary parts
             new_val_real = np.vectorize(lambda v: v.real)(val)
             new_val_imag = np.vectorize(lambda v: v.imag)(val)
+            if new_val_real.dtype.kind == 'f' and new_val_real.dtype.itemsize < 8:
+                # (complex64 components are float32: they are scaled and clipped as doubles)
+                new_val_real = new_val_real.astype(np.float64)
+                new_val_imag = new_val_imag.astype(np.float64)
             
             # val_dtype determination
             _n_word_max_ = min(_n_word_max, 64)
